@@ -32,8 +32,8 @@ impl Vector<Complex::<f64>> {
     /// Return the Inf norm: largest absolute value element (p -> infinity)
     #[inline]
     pub fn norm_inf(&self) -> f64 {
-        let mut result = self.vec[0].abs();
-        for i in 1..self.size() {
+        let mut result: f64 = 0.0; // the norm of the empty vector
+        for i in 0..self.size() {
             if result < self.vec[i].abs() {
                 result = self.vec[i].abs();
             }
